@@ -283,6 +283,17 @@ func Fail(t TB, check string, c any, format string, args ...any) {
 	t.Fatalf("[%s] %s\ncase: %s", check, msg, trunc(string(raw), 2000))
 }
 
+// FailAndExit records a failure that cannot be reported through the test framework (a call that
+// does not return) and ends the process; the driver picks the failure up from the stats file.
+func FailAndExit(check string, c any, format string, args ...any) {
+	raw, _ := json.Marshal(c)
+	mu.Lock()
+	st.Failures = append(st.Failures, Failure{Check: check, Case: raw, Message: fmt.Sprintf(format, args...)})
+	mu.Unlock()
+	write()
+	os.Exit(1)
+}
+
 func trunc(s string, n int) string {
 	if len(s) > n {
 		return s[:n] + "…"
